@@ -92,7 +92,7 @@ func NewEngine(pr *Program, cfg Config) *Engine {
 	e := &Engine{prog: pr.Prog, cfg: cfg,
 		covers: map[string]map[string]bool{}, asserts: map[string]map[string]int{}, obligs: map[string]int{}, modelN: map[string]int{},
 		funcs: map[string]int{}, stubsUsed: map[string]map[string]bool{}, pkgByPath: map[string]*ssa.Package{},
-		sharedGlobals: map[*ssa.Global]*Value{}, sharedDone: map[*ssa.Package]bool{},
+		sharedGlobals: map[*ssa.Global]*Value{}, sharedDone: map[*ssa.Package]bool{}, pure: map[*ssa.Function]*pureInfo{},
 	}
 	for _, pk := range pr.Prog.AllPackages() {
 		e.pkgByPath[pk.Pkg.Path()] = pk
@@ -422,6 +422,7 @@ func (e *Engine) runPath(fn *ssa.Function, prefix []Decision, sol *Solver, deadl
 	q0, t0 := sol.Queries, sol.Time
 	sol.Push()
 	defer func() {
+		p.killGoroutines()
 		sol.Pop()
 		p.res.Queries = sol.Queries - q0
 		p.res.SolverTime = sol.Time - t0
@@ -435,6 +436,9 @@ func (e *Engine) runPath(fn *ssa.Function, prefix []Decision, sol *Solver, deadl
 				case pathEnd:
 					p.res.Outcome = r.kind
 					p.res.Msg = r.msg
+					if r.kind == "quiescent" {
+						p.runQuiescenceChecks()
+					}
 				case targetPanic:
 					p.reportPanic(r)
 				default:
@@ -489,4 +493,32 @@ func (e *Engine) sharedInit(pkg *ssa.Package) {
 	ip := e.newPath(nil)
 	ip.isInitPath = true
 	ip.ensureInit(pkg)
+}
+
+
+// runQuiescenceChecks runs the closures registered with verifOnQuiescent after every goroutine has blocked.
+func (p *Path) runQuiescenceChecks() {
+	if p.sched == nil || len(p.sched.onQuiet) == 0 {
+		return
+	}
+	fs := p.sched.onQuiet
+	p.sched.onQuiet = nil
+	defer func() {
+		if r := recover(); r != nil {
+			switch r := r.(type) {
+			case pathEnd:
+				p.res.Outcome, p.res.Msg = r.kind, r.msg
+			case targetPanic:
+				p.reportPanic(r)
+			default:
+				p.res.Outcome = "engine-error"
+				p.res.Msg = fmt.Sprintf("%v\n%s", r, stackTrace())
+			}
+		}
+	}()
+	p.depth, p.top = 0, nil
+	p.sched.cur = p.sched.gs[0]
+	for _, f := range fs {
+		p.call(nil, token.NoPos, f, nil)
+	}
 }
